@@ -57,6 +57,7 @@ def run(ctx: Ctx) -> None:
     reti_source_stable(ctx, rs)
     reti_clears_delivered(ctx, rs)
     vector_read_at_delivery(ctx, py, rs)
+    python_entry_atomic(ctx, py)
 
 
 # ---------------------------------------------------------------------------
@@ -954,3 +955,67 @@ def vector_read_at_delivery(ctx: Ctx, py: PyProgram, rs: RustProgram) -> None:
         if not ok:
             ctx.violation("C12.2/vector-live", key_of(fn.file, fn.qual, "interrupt vector not read from memory at delivery"), f"{fn.qual}: {verdict}", f"{fn.file}:{c['ln']}")
     ctx.instance("C12.2/vector-live", "set_pc sites of the Rust delivery: the value is loaded from the vector address by the delivery itself", n, 1)
+
+
+def python_entry_atomic(ctx: Ctx, py: PyProgram) -> None:
+    """Interrupt entry is atomic: once the frame is being pushed, nothing before `PC := vector` may fail.  The delivery block of
+    PCE500Emulator.step sits in a blanket handler, so an exception there leaves S lowered and IRM cleared while the main program
+    simply continues.  Decided part (a contradiction rule): a field the class itself treats as possibly None (it assigns None to it)
+    is not dereferenced (`self.F.attr`) between the first push and the PC write unless a test of that field guards the use; locally
+    handled `try` blocks are not part of the sequence."""
+    EMU_ = "pce500/emulator.py"
+    mod = py.module(EMU_)
+    cls = next((c for c in ast.walk(mod.tree) if isinstance(c, ast.ClassDef) and c.name == "PCE500Emulator"), None)
+    if cls is None:
+        raise AnalysisError("PCE500Emulator vanished")
+    nullable = set()
+    for a in ast.walk(cls):
+        if isinstance(a, (ast.Assign, ast.AnnAssign)) and isinstance(getattr(a, "value", None), ast.Constant) and a.value.value is None:
+            for t in (a.targets if isinstance(a, ast.Assign) else [a.target]):
+                ch = attr_chain(t)
+                if ch and ch.startswith("self.") and ch.count(".") == 1:
+                    nullable.add(ch)
+    fn = py.func(EMU_, "PCE500Emulator.step")
+
+    def is_pc_set(st: ast.AST) -> bool:
+        return any(isinstance(c, ast.Call) and attr_chain(c.func) in ("self.cpu.regs.set",) and c.args and attr_chain(c.args[0]) == "RegisterName.PC" for c in ast.walk(st))
+
+    def is_push(st: ast.AST) -> bool:
+        return isinstance(st, ast.Expr) and isinstance(st.value, ast.Call) and attr_chain(st.value.func) in ("self.memory.write_bytes",)
+    region = None
+    for blk in ast.walk(fn):
+        for fld in ("body", "orelse", "finalbody"):
+            stmts = getattr(blk, fld, None)
+            if isinstance(stmts, list) and any(is_push(s_) for s_ in stmts) and any(isinstance(s_, ast.Expr) and is_pc_set(s_) for s_ in stmts):
+                i0 = next(i for i, s_ in enumerate(stmts) if is_push(s_))
+                i1 = max(i for i, s_ in enumerate(stmts) if isinstance(s_, ast.Expr) and is_pc_set(s_))
+                region = stmts[i0:i1 + 1]
+    if region is None:
+        raise AnalysisError("PCE500Emulator.step: delivery sequence (pushes .. PC := vector) not found")
+    n = 0
+
+    def scan(node: ast.AST, guarded: frozenset) -> None:
+        nonlocal n
+        if isinstance(node, ast.Try) and any(h.type is None or unparse(h.type) in ("Exception", "BaseException") for h in node.handlers):
+            return                                   # handled on the spot: cannot abort the entry sequence
+        if isinstance(node, (ast.If, ast.IfExp)):
+            tested = frozenset(ch for x in ast.walk(node.test) for ch in [attr_chain(x)] if ch in nullable)
+            scan(node.test, guarded)
+            for sub in ([node.body] if isinstance(node, ast.IfExp) else node.body):
+                scan(sub, guarded | tested)
+            for sub in ([node.orelse] if isinstance(node, ast.IfExp) else node.orelse):
+                scan(sub, guarded | tested)
+            return
+        if isinstance(node, ast.Attribute) and isinstance(node.value, ast.Attribute):
+            base = attr_chain(node.value)
+            if base in nullable:
+                n += 1
+                if base not in guarded:
+                    ctx.violation("C12.1/entry-atomic", key_of(EMU_, "PCE500Emulator.step", f"{base}.{node.attr} dereferenced inside the entry sequence"),
+                                  f"`{unparse(node)}` is evaluated between the first push and `PC := vector`, but {base} may be None (the class assigns None to it): the AttributeError is swallowed by the "
+                                  "delivery's blanket handler, leaving S lowered and IRM cleared with the handler never entered", f"{EMU_}:{node.lineno}")
+        for ch_ in ast.iter_child_nodes(node):
+            scan(ch_, guarded)
+    for st in region:
+        scan(st, frozenset())
+    ctx.instance("C12.1/entry-atomic", "statements between the first push and PC := vector in the Python delivery (dereferences of possibly-None fields counted)", len(region), 10)
